@@ -132,9 +132,19 @@ def run(res):
         o = {"noaud": int(r.random() < 0.3), "eosfirst": int(r.random() < 0.3), "discard": int(r.random() < 0.25), "annexb": int(r.random() < 0.3),
              "mode": r.choice([None, None, None, 0, 1, 2, 3]) if use_pool else None}
         tz = r.choice([0, 0.05])
+        real_chunk = k < (2 if res.tier == "quick" else 12)
+        if real_chunk:
+            # streams larger than the real 100 kB read size (no hook override): a large prefix SEI NAL inside
+            # two access units of each layer (after the first NAL of the frame, i.e. after the AUD when present)
+            for frs in (bl_frames, el_frames):
+                for fi in sorted({0, len(frs) // 2}):
+                    f = frs[fi]
+                    pos = 1 if f and f[0].type == 35 else 0
+                    f.insert(pos, S.SNal(H.sei_nal([(200, H.filler(r, r.choice([60000, 99990, 100003])))])))
+            bl, el = S.flatten(bl_frames), S.flatten(el_frames)
         bld = S.stream_bytes(r, bl, sc=r.choice(["four", "mixed"]), tz_prob=tz)
         eld = S.stream_bytes(r, el, sc=r.choice(["four", "mixed"]), tz_prob=tz)
-        cs = r.choice([None, 1000, 2000, 5000, 10000, 500])
+        cs = None if real_chunk else r.choice([None, 1000, 2000, 5000, 10000, 500])
         blp, elp, outp = w.write("BL.hevc", bld), w.write("EL.hevc", eld), w.path("mux.hevc")
         if os.path.exists(outp):
             os.remove(outp)
